@@ -11,3 +11,4 @@ import CtyModel.Props.C16
 import CtyModel.Props.C15
 import CtyModel.Props.C13
 import CtyModel.Props.C06
+import CtyModel.Props.C20
